@@ -1,5 +1,5 @@
 //@unit kgeom
-//@props C08 C09 C12
+//@props C08 C09 C11 C12
 // K-geom: the numeric kernel of bounding boxes (src/position.rs) on REAL f32, bit-precise over the
 // full input domain (Kani / CBMC, loop-free harnesses: complete proofs). These are the claims that
 // are exact in IEEE arithmetic; the identities that only hold over the reals are the Verus units'
@@ -29,6 +29,12 @@ impl BoundingBox {
 //@item src/position.rs :: impl BoundingBox :: fn width
 //@end
 //@item src/position.rs :: impl BoundingBox :: fn height
+//@end
+}
+/// only the field extent() reads
+pub struct Position { pub shape: String }
+impl Position {
+//@item src/position.rs :: impl Position :: fn extent
 //@end
 }
 impl Length {
@@ -98,6 +104,38 @@ mod proofs {
         kani::assume(no_nan(&a));
         let t = a.translated(0.0, 0.0);
         assert!(t.x1 == a.x1 && t.y1 == a.y1 && t.x2 == a.x2 && t.y2 == a.y2);
+    }
+
+    // @harness extent_given_edges @C11.k.extent_given_edges complete :: when both edges of an axis are given they are returned bit-for-bit, whatever else is given; a finite start and length give exactly (s, s + l); for all f32
+    #[kani::proof]
+    fn extent_given_edges() {
+        let p = Position { shape: String::new() };
+        let (s, e): (f32, f32) = (kani::any(), kani::any());
+        let m: Option<f32> = if kani::any() { Some(kani::any()) } else { None };
+        let l: Option<f32> = if kani::any() { Some(kani::any()) } else { None };
+        let r = p.extent(Some(s), Some(e), m, l);
+        assert!(r.is_some());
+        let (a, b) = r.unwrap();
+        assert!(a.to_bits() == s.to_bits() && b.to_bits() == e.to_bits());
+        if s.is_finite() && e.is_finite() {     // (inf + -inf is flagged by Kani's own NaN check; not a panic of the code)
+            let r2 = p.extent(Some(s), None, None, Some(e));
+            let (a2, b2) = r2.unwrap();
+            assert!(a2.to_bits() == s.to_bits() && b2 == s + e);
+        }
+        core::mem::forget(p);
+    }
+
+    // @harness extent_underdetermined @C11.k.extent_underdetermined complete :: a single constraint on an axis of a non-line shape determines no extent
+    #[kani::proof]
+    fn extent_underdetermined() {
+        let p = Position { shape: String::new() };
+        let v: f32 = kani::any();
+        assert!(p.extent(Some(v), None, None, None).is_none());
+        assert!(p.extent(None, Some(v), None, None).is_none());
+        assert!(p.extent(None, None, Some(v), None).is_none());
+        assert!(p.extent(None, None, None, Some(v)).is_none());
+        assert!(p.extent(None, None, None, None).is_none());
+        core::mem::forget(p);
     }
 
     // @harness offset_endpoints @C09.k.offset_endpoints complete :: an edge offset of 0% is the start of the edge, 100% is its end, `0` units is the start; for all finite edges
